@@ -537,8 +537,8 @@ impl SubRule {
 
         *pos = back_pos;
         *state_index = back_state;
-        *self.alphas.borrow_mut() = back_alphas.clone();
-        *self.variables.borrow_mut() = back_varlbs.clone();
+        *self.alphas.borrow_mut() = back_alphas;
+        *self.variables.borrow_mut() = back_varlbs;
         
         let max = match_max.unwrap_or(usize::MAX);
         while index < max {
@@ -547,6 +547,9 @@ impl SubRule {
             let rep_start = *pos;
             if self.match_opt_states(opt_states, word, pos, forwards)? {
                 let opt_pos = *pos;
+                // what this repetition bound stays bound for the repetitions that follow it, what a failed continuation bound does not
+                let rep_alphas = self.alphas.borrow().clone();
+                let rep_varlbs = self.variables.borrow().clone();
                 let mut m = true;
                 while *state_index < states.len() {
                     #[cfg(feature = "verif")] crate::verif::tick(113);
@@ -564,8 +567,8 @@ impl SubRule {
                 } else {
                     index += 1;
                     *pos = opt_pos;
-                    *self.alphas.borrow_mut() = back_alphas.clone();
-                    *self.variables.borrow_mut() = back_varlbs.clone();
+                    *self.alphas.borrow_mut() = rep_alphas;
+                    *self.variables.borrow_mut() = rep_varlbs;
                     continue;
                 }
             } else {
